@@ -131,13 +131,16 @@ def gen_present(rng, case):
     arr = (["f64", "f64", "fortran", "strided", "readonly"] + (["int"] * 3 if integral_pts else [])
            + (["f32"] if f32ok else []))
     cel = ["array", "array", "list", "tuple", "readonly"] + (["intarray", "intlist"] if integral_cell else [])
+    if case["cell"] is not None and all(float(np.float32(c)) == float(c) for c in case["cell"]):
+        cel.append("f32array")        # side lengths exact in float32: same numbers, other dtype
     px, py = rng.choice(arr), rng.choice(arr)
     if f32ok and rng.random() < 0.15:
         # BOTH arrays single precision (sklearn's check_pairwise_arrays then keeps float32): the values
         # are exactly representable, so the result must be the one for the float64 arrays
         px = py = "f32"
     alias = case.get("alias_mode") or (case["Y"] is None and rng.random() < 0.3)
-    return dict(X=px, Y=py, cell=rng.choice(cel),
+    # the flag itself: python bool, numpy bool, 0-d bool array, int 0/1 -- anything truthy means squared
+    return dict(X=px, Y=py, cell=rng.choice(cel), squared=rng.choice(["bool", "bool", "npbool", "np0d", "int"]),
                 P=rng.choice(["f64", "f64", "fortran", "strided", "readonly"]), alias=alias)
 
 
@@ -358,6 +361,8 @@ def present_cell(cell, how):
         return [int(c) for c in cell]
     if how == "intarray":
         return np.array(cell, dtype=np.int64)
+    if how == "f32array":
+        return np.array(cell, dtype=np.float32)
     a = np.array(cell, dtype=float)
     if how == "readonly":
         a.setflags(write=False)
@@ -388,6 +393,16 @@ DIRECTED = [
          alias_mode=None, prec_kinds=["ident"], L=[[[1.0, 0.0], [0.0, 1.0]]], P=[[[1.0, 0.0], [0.0, 1.0]]], cov2d=True,
          present=dict(X="f32", Y="f32", cell="array", P="f64", alias=False)),
 ]
+
+
+def present_flag(v, how):
+    if how == "npbool":
+        return np.bool_(v)
+    if how == "np0d":
+        return np.asarray(bool(v))
+    if how == "int":
+        return int(v)
+    return bool(v)
 
 
 def build_xy(case, pr):
@@ -433,6 +448,7 @@ def call_once(case, squared):
         P = present_stack(case["P"], pr["P"])
         args["cov_inv"] = P[0] if case["cov2d"] else P
     before = {k: snapshot(v) for k, v in args.items()}
+    squared = present_flag(squared, pr.get("squared", "bool"))
     out = err = msg = None
     try:
         if case["kind"] == "pp":
